@@ -218,8 +218,8 @@ Fixpoint run (e : env) (l : list cstmt) {struct l} : env * bool :=
   | _ :: r => run e r
   end.
 
-Definition is_assign (s : cstmt) : bool := match s with SAssign _ _ _ => true | _ => false end.
-Definition is_vec (s : cstmt) : bool := match s with SVec => true | _ => false end.
+Fixpoint all_assign (l : list cstmt) : bool :=
+  match l with [] => true | SAssign _ _ _ :: r => all_assign r | _ :: _ => false end.
 
 (* the body of the AES-NI whole-block loop must be: be64enc(arr, e); vector statements; scalar
    statements - the positions the hand-written vector part of the model assumes *)
@@ -229,7 +229,7 @@ Definition body_parts (l : list cstmt) : option (cexpr * list cstmt) :=
   match l with
   | SBe64 0%N 0%N e :: r =>
     match r with
-    | SVec :: _ => let s := drop_vec r in if forallb is_assign s then Some (e, s) else None
+    | SVec :: _ => let s := drop_vec r in if all_assign s then Some (e, s) else None
     | _ => None
     end
   | _ => None
@@ -239,7 +239,7 @@ Definition body_parts (l : list cstmt) : option (cexpr * list cstmt) :=
 Fixpoint the_memcpy (l : list cstmt) : option (N * N) :=
   match l with
   | [] => None
-  | SMemcpy off len :: r => if forallb is_assign r then Some (off, len) else None
+  | SMemcpy off len :: r => if all_assign r then Some (off, len) else None
   | SAssign _ _ _ :: r => the_memcpy r
   | _ :: _ => None
   end.
